@@ -234,7 +234,7 @@ def inv_cases(rng, tier, scheme):
     quick = tier == "quick"
     out = []
     for flag in (0, 1):
-        lens = ([5] + (rng.sample(MSG_LENS, 2) if quick else MSG_LENS[::3])) if flag == 0 else ([32] if quick else [0, 1, 31, 32, 33, 64])
+        lens = ([5] + (rng.sample(MSG_LENS, 2) if quick else MSG_LENS[::3])) if flag == 0 else ([32, 40] if quick else [0, 1, 31, 32, 33, 40, 64])     # beyond the digest length: EVERY byte counts (seed C05-w1)
         for j, n in enumerate(lens):
             m = rmsg(rng, n)
             muts = list(INV_MUTS) if j == 0 else ["honest", "infkey"]
